@@ -6,6 +6,9 @@ From MV Require Import Inv.LinkModel.
 From MV Require Import Inv.LinkProofs.
 From MV Require Import Gen.WildSrc.
 From MV Require Import Inv.WildSrcProofs.
+From MV Require Import Gen.FilterSrc.
+From MV Require Import Inv.FilterSrcProofs.
+From MV Require Import Inv.FilterSrcGlue.
 Import ListNotations.
 
 (* '*' any run of characters, '\*' a literal star, every other character only itself:
@@ -60,6 +63,28 @@ Theorem C19_inv_link : forall ms,
   end.
 Proof. exact inv_link_spec. Qed.
 Print Assumptions C19_inv_link.
+
+(* the same two statements for the filter loops as regenerated from inventory.py on every run
+   (Gen/FilterSrc.v, translator gen/c19_filters.py; refinement proofs Inv/FilterSrcProofs.v) *)
+Theorem C19_filter_exact_src : forall invs qi qd qo qt,
+  filter_inventories_src invs qi qd qo qt = filter (match4 qi qd qo qt) (flatten invs).
+Proof. exact filter_exact_src. Qed.
+Print Assumptions C19_filter_exact_src.
+
+Theorem C19_native_equals_sphinx_src : forall invs qi qd qo qt,
+  forallb (fun '(k, i) => wf_inv i) invs = true ->
+  filter_sphinx_inventories_src (map (fun '(k, i) => (k, to_sphinx i)) invs) qi qd qo qt =
+  map erase_base (filter_inventories_src invs qi qd qo qt).
+Proof. exact native_equals_sphinx_src. Qed.
+Print Assumptions C19_native_equals_sphinx_src.
+
+(* filter_string (used in warnings and inv_match): components joined by the delimiter, None as "*",
+   a component containing the delimiter in double quotes *)
+Theorem C19_filter_string_src : forall invs domains otype target delimiter,
+  filter_string_src invs domains otype target delimiter =
+  join delimiter (map (filter_item delimiter) [invs; domains; otype; target]).
+Proof. exact filter_string_src_spec. Qed.
+Print Assumptions C19_filter_string_src.
 
 (* the reference an inv: link renders: nothing but one iref_missing warning when no entry matches; otherwise
    the FIRST matching entry, with one iref_ambiguous warning iff there are several; its refuri is the entry's
